@@ -33,10 +33,10 @@ theorem good_err {α : Type} (Q : α → Prop) : Good (DRes.err : DRes α) Q := 
 theorem good_ok {α : Type} {Q : α → Prop} (a : α) (h : Q a) : Good (DRes.ok a) Q := Or.inr ⟨a, rfl, h⟩
 
 theorem good_slFrom (b : Bytes) (n : Nat) (h : n ≤ b.length) : Good (slFrom b n) (fun o => o = b.drop n) := by
-  simp [slFrom, h, Good]
+  simp [slFrom, lenLt, Nat.not_lt.mpr h, Good]
 
 theorem good_slTo (b : Bytes) (n : Nat) (h : n ≤ b.length) : Good (slTo b n) (fun o => o = b.take n) := by
-  simp [slTo, h, Good]
+  simp [slTo, lenLt, Nat.not_lt.mpr h, Good]
 
 theorem good_be16 (b : Bytes) (h : 2 ≤ b.length) : Good (be16 b) (fun n => n < 65536) := by
   match b, h with
@@ -55,7 +55,7 @@ theorem good_readMapHeader (b : Bytes) : Good (readMapHeader b) (fun r => r.2.le
   cases b with
   | nil => exact good_err _
   | cons lead t =>
-    simp only [readMapHeader]
+    simp only [readMapHeader, lenLt, decide_eq_true_eq]
     split
     · exact (good_slFrom _ 1 (by simp)).bind fun o ho => good_ok _ (by simp [ho])
     · split
@@ -78,6 +78,7 @@ theorem good_readMapHeader (b : Bytes) : Good (readMapHeader b) (fun r => r.2.le
 theorem good_takeExact (b : Bytes) (n : Nat) :
     Good (takeExact b n) (fun r => r.2.length ≤ b.length ∧ r.1.length = n ∧ b = r.1 ++ r.2) := by
   unfold takeExact
+  simp only [lenLt, decide_eq_true_eq]
   split
   · exact good_err _
   · rename_i h
@@ -91,7 +92,7 @@ theorem good_readString (b : Bytes) : Good (readString b) (fun r => r.2.length +
   cases b with
   | nil => exact good_err _
   | cons lead t =>
-    simp only [readString]
+    simp only [readString, lenLt, decide_eq_true_eq]
     split
     · refine (good_slFrom _ 1 (by simp)).bind fun t' ht => (good_takeExact t' _).mono fun r hr => ?_
       simp [ht] at hr; simp; omega
@@ -129,7 +130,7 @@ theorem good_readBin (b : Bytes) : Good (readBin b) (fun r => r.2.length + 1 ≤
   cases b with
   | nil => exact good_err _
   | cons lead t =>
-    simp only [readBin]
+    simp only [readBin, lenLt, decide_eq_true_eq]
     split
     · split
       · exact good_err _
@@ -213,7 +214,7 @@ theorem good_getSize (b : Bytes) : Good (getSize b) (fun r => 1 ≤ r.1) := by
   cases b with
   | nil => exact good_err _
   | cons lead t =>
-    simp only [getSize]
+    simp only [getSize, lenLt, decide_eq_true_eq]
     repeat' (refine good_ite (fun _ => ?_) (fun _ => ?_))
     all_goals first
       | exact good_err _
@@ -230,7 +231,7 @@ theorem good_skipObjs (fuel n : Nat) (b : Bytes) : Good (skipObjs fuel n b) (fun
     cases n with
     | zero => simp [skipObjs, Good]
     | succ n =>
-      simp only [skipObjs]
+      simp only [skipObjs, lenLt, decide_eq_true_eq]
       rcases good_getSize b with h | ⟨⟨sz, asz⟩, h, hq⟩
       · simp [h, Good]
       · simp only [h]
@@ -316,8 +317,20 @@ theorem good_decodeWith (guard : Bool) (bs : Bytes) :
     · simp only [h]; exact good_ok _ trivial
 
 
+theorem ite_lenLt {α : Type} (b : Bytes) (n : Nat) (x y : α) :
+    (if lenLt b n = true then x else y) = if n ≤ b.length then y else x := by
+  by_cases h : n ≤ b.length
+  · simp [lenLt, h, Nat.not_lt.mpr h]
+  · simp [lenLt, h, Nat.lt_of_not_le h]
+
+theorem slFrom_le (b : Bytes) (n : Nat) : slFrom b n = if n ≤ b.length then .ok (b.drop n) else .panic := by
+  simp [slFrom, ite_lenLt]
+
+theorem slTo_le (b : Bytes) (n : Nat) : slTo b n = if n ≤ b.length then .ok (b.take n) else .panic := by
+  simp [slTo, ite_lenLt]
+
 theorem takeExact_append (k rest : Bytes) : takeExact (k ++ rest) k.length = .ok (k, rest) := by
-  simp [takeExact, slTo, slFrom, DRes.bind]
+  simp [takeExact, ite_lenLt, slTo_le, slFrom_le, ite_lenLt, DRes.bind]
 
 theorem fixstr_lead : ∀ n : Fin 32, ((0xa0 : UInt8) ||| UInt8.ofNat n.val) &&& 0xe0 = 0xa0 ∧
     (((0xa0 : UInt8) ||| UInt8.ofNat n.val) &&& 0x1f).toNat = n.val := by decide
@@ -340,19 +353,19 @@ theorem readString_appendString (k rest : Bytes) (h : k.length < 4294967296) :
   by_cases h1 : k.length ≤ 31
   · obtain ⟨e1, e2⟩ := fixstr_lead ⟨k.length, by omega⟩
     simp only at e1 e2
-    simp only [h1, if_true, List.cons_append, readString, e1, slFrom, DRes.bind, e2]
+    simp only [h1, if_true, List.cons_append, readString, e1, slFrom_le, ite_lenLt, DRes.bind, e2]
     simp [takeExact_append]
   · by_cases h2 : k.length ≤ 255
     · simp only [h1, h2, if_true, if_false, List.cons_append, readString]
       have e : ¬ ((0xd9 : UInt8) &&& 0xe0 = 0xa0) := by decide
-      simp only [e, if_false, if_true, slFrom, DRes.bind]
+      simp only [e, if_false, if_true, slFrom_le, ite_lenLt, DRes.bind]
       have hk : (UInt8.ofNat k.length).toNat = k.length := by simp [UInt8.toNat_ofNat']; omega
       simp [hk, takeExact_append]
     · by_cases h3 : k.length ≤ 65535
       · simp only [h1, h2, h3, if_true, if_false, List.cons_append, readString]
         have e : ¬ ((0xda : UInt8) &&& 0xe0 = 0xa0) := by decide
         have e2 : ¬ ((0xda : UInt8) = 0xd9) := by decide
-        simp only [e, e2, if_false, if_true, slFrom, DRes.bind]
+        simp only [e, e2, if_false, if_true, slFrom_le, ite_lenLt, DRes.bind]
         have hlen : ¬ ((u16 k.length ++ (k ++ rest)).length + 1 < 3) := by simp [u16]
         simp [u16] at hlen ⊢
         have := be16_u16 k.length (by omega) (k ++ rest)
@@ -362,7 +375,7 @@ theorem readString_appendString (k rest : Bytes) (h : k.length < 4294967296) :
         have e : ¬ ((0xdb : UInt8) &&& 0xe0 = 0xa0) := by decide
         have e2 : ¬ ((0xdb : UInt8) = 0xd9) := by decide
         have e3 : ¬ ((0xdb : UInt8) = 0xda) := by decide
-        simp only [e, e2, e3, if_false, if_true, slFrom, DRes.bind]
+        simp only [e, e2, e3, if_false, if_true, slFrom_le, ite_lenLt, DRes.bind]
         simp [u32]
         have := be32_u32 k.length h (k ++ rest)
         simp only [u32, List.cons_append, List.nil_append] at this
@@ -375,22 +388,22 @@ theorem readMapHeader_mapHeader (n : Nat) (rest : Bytes) (h : n < 4294967296) :
   by_cases h1 : n ≤ 15
   · obtain ⟨e1, e2⟩ := fixmap_lead ⟨n, by omega⟩
     simp only at e1 e2
-    simp [h1, readMapHeader, e1, e2, slFrom, DRes.bind]
+    simp [h1, readMapHeader, e1, e2, slFrom_le, ite_lenLt, DRes.bind]
   · by_cases h2 : n ≤ 65535
     · have e : ¬ ((0xde : UInt8) &&& 0xf0 = 0x80) := by decide
-      simp only [h1, h2, if_true, if_false, List.cons_append, readMapHeader, e, slFrom, DRes.bind]
+      simp only [h1, h2, if_true, if_false, List.cons_append, readMapHeader, e, slFrom_le, ite_lenLt, DRes.bind]
       have := be16_u16 n (by omega) rest
       simp only [u16, List.cons_append, List.nil_append] at this
       simp [u16, this, DRes.bind]
     · have e : ¬ ((0xdf : UInt8) &&& 0xf0 = 0x80) := by decide
       have e2 : ¬ ((0xdf : UInt8) = 0xde) := by decide
-      simp only [h1, h2, if_false, List.cons_append, readMapHeader, e, e2, slFrom, DRes.bind]
+      simp only [h1, h2, if_false, List.cons_append, readMapHeader, e, e2, slFrom_le, ite_lenLt, DRes.bind]
       have := be32_u32 n h rest
       simp only [u32, List.cons_append, List.nil_append] at this
       simp [u32, this, DRes.bind]
 
 theorem readBool_appendBool (v : Bool) (rest : Bytes) : readBool (appendBool v ++ rest) = .ok (v, rest) := by
-  cases v <;> simp [appendBool, readBool, slFrom, DRes.bind]
+  cases v <;> simp [appendBool, readBool, slFrom_le, ite_lenLt, DRes.bind]
 
 def entryBytes (e : Bytes × Bool) : Bytes := appendString e.1 ++ appendBool e.2
 
@@ -425,7 +438,7 @@ theorem readMapKey_nodes (rest : Bytes) : readMapKey (0xa5 :: (nodesName ++ rest
   have e1 : ¬ ((0xa5 : UInt8) = 0xc4 ∨ (0xa5 : UInt8) = 0xc5 ∨ (0xa5 : UInt8) = 0xc6) := by decide
   have e2 : (0xa5 : UInt8) &&& 0xe0 = 0xa0 := by decide
   have e3 : ((0xa5 : UInt8) &&& 0x1f).toNat = nodesName.length := by decide
-  simp only [readMapKey, e1, if_false, readString, e2, if_true, slFrom, DRes.bind, e3]
+  simp only [readMapKey, e1, if_false, readString, e2, if_true, slFrom_le, ite_lenLt, DRes.bind, e3]
   simp [takeExact_append]
 
 /-- MarshalMsg then UnmarshalMsg gives the entries back, with a single allocation sized by the entry count -/
@@ -437,7 +450,7 @@ theorem decode_encode (m : List (Bytes × Bool)) (hn : m.length < 4294967296)
       = .ok (1, 0xa5 :: (nodesName ++ mapHeader m.length ++ m.flatMap (fun e => appendString e.1 ++ appendBool e.2))) := by
     have e : (0x81 : UInt8) &&& 0xf0 = 0x80 := by decide
     have e2 : ((0x81 : UInt8) &&& 0x0f).toNat = 1 := by decide
-    simp [readMapHeader, slFrom, DRes.bind, e, e2]
+    simp [readMapHeader, slFrom_le, ite_lenLt, DRes.bind, e, e2]
   rw [h1]
   simp only [orFail, readFields, List.append_assoc]
   rw [readMapKey_nodes]
